@@ -352,6 +352,16 @@ func c02Write(e *signedexchange.Exchange) (out []byte, err error, pan string) {
 
 const c02Date = int64(1517418800)
 
+var c02URLSpellings = []string{
+	c08Origin + "index.html",
+	"HTTPS://a.test/index.html",    // upper-case scheme
+	c08Origin + "p|q^r{s}",         // path bytes Go would percent-encode on output
+	c08Origin + "r\u00e9sum\u00e9", // raw UTF-8 in the path
+	c08Origin + "a%2fb/%7Euser",    // escapes Go would re-spell
+	c08Origin + "search?",          // empty query
+	c08Origin + "x y",              // space
+}
+
 func c02Roundtrip(c *mc.Ctx) {
 	thorough := !c.Quick()
 	ver := c08Vers[c.Free(len(c08Vers), "version")]
@@ -370,8 +380,18 @@ func c02Roundtrip(c *mc.Ctx) {
 		windows = []int64{3600, 2, 604800}
 	}
 	window := windows[c.Free(len(windows), "window")]
+	// Request-URL spellings that are not fixed points of Go's url.Parse(..).String(): the URL is
+	// signed and stored as the caller's bytes, so it must come back byte-identical (offered on
+	// the rs=16 slice of the grid only, to keep the product small).
+	urlSpelling := c08Origin + "index.html"
+	if rs == 16 && hs.name == c02HeaderSets[0].name {
+		urlSpelling = c02URLSpellings[c.Free(len(c02URLSpellings), "url-spelling")]
+	}
 
 	id := fmt.Sprintf("%s:%s:%s:rs=%d:len=%d:w=%d", hs.name, ver.ref, k.name, rs, plen, window)
+	if urlSpelling != c08Origin+"index.html" {
+		id += ":url=" + urlSpelling
+	}
 	key := "C02/" + id
 	c.State([]byte(id))
 	judge := hs.judge(ver.ref)
@@ -389,7 +409,7 @@ func c02Roundtrip(c *mc.Ctx) {
 		method = "GET"
 	}
 	payload := pattern(plen, c.Seed+int64(rs))
-	url := c08Origin + "index.html"
+	url := urlSpelling
 	b, err := c02Build(ver, k, url, method, hs.req, hs.resp(), status, payload, rs, c02Date, window, c08Origin+"cert.cbor", nil)
 	if err != nil {
 		fail("build", "the library refused to build / sign a plain exchange", "nil", err.Error())
